@@ -115,14 +115,26 @@ template<int REP> static TS* make(Pre& p)
    p.setup = vp_nondet_bool(); p.fact = vp_nondet_bool();
    vp_assume(!p.fact || p.setup);                                   // a factorization exists only for a set-up matrix
    s->Basis::matrixIsSetup = p.setup; s->Basis::factorized = p.fact;
-#ifndef NO_MATRIX
    if(p.setup) for(int k = 0; k < p.dim; ++k) s->Basis::matrix[k] = &s->vector(s->Basis::theBaseId[k]);
-#endif
    p.bstat = vp_int_in(Basis::SINGULAR, Basis::INFEASIBLE);         // a basis is available
    s->Basis::thestatus = (Basis::SPxStatus)p.bstat;
    s->initialized = vp_nondet_bool();
    s->m_status = Solver::REGULAR;
    return s;
+}
+// index of the row / column with the given key in the LP as it is now, -1 if it is gone (own scan over the LP's keys:
+// number(key) throws for keys beyond the shrunken key table)
+static int new_row(const TS* s, const DataKey& k)
+{
+   int r = -1;
+   for(int n = 0; n < VNR; ++n) if(n < s->nRows() && s->rId(n).getIdx() == k.getIdx()) r = n;
+   return r;
+}
+static int new_col(const TS* s, const DataKey& k)
+{
+   int r = -1;
+   for(int n = 0; n < VNC; ++n) if(n < s->nCols() && s->cId(n).getIdx() == k.getIdx()) r = n;
+   return r;
 }
 // rowgone[i] / colgone[j]: removed by the call. Post-conditions of every removal entry.
 static void check(TS* s, const Pre& p, const bool* rowgone, const bool* colgone)
@@ -144,13 +156,13 @@ static void check(TS* s, const Pre& p, const bool* rowgone, const bool* colgone)
       int nb = 0, ndual = 0;
       for(int i = 0; i < VNR; ++i)
       {
-         int ni = s->number(p.rid[i]);
+         int ni = new_row(s, p.rid[i]);
          vp_assert((ni < 0) == rowgone[i], 5);
          if(ni >= 0) { vp_assert(ni < nr1 && ds.rowStatus(ni) == p.rs[i], 6); }     // survivors keep their status at their new index
       }
       for(int j = 0; j < VNC; ++j)
       {
-         int nj = s->number(p.cid[j]);
+         int nj = new_col(s, p.cid[j]);
          vp_assert((nj < 0) == colgone[j], 7);
          if(nj >= 0) { vp_assert(nj < nc1 && ds.colStatus(nj) == p.cs[j], 8); }
       }
@@ -160,20 +172,20 @@ static void check(TS* s, const Pre& p, const bool* rowgone, const bool* colgone)
       vp_assert(ndual == nr1, 10);                                     // ... i.e. exactly one basic (dual-status) variable per row
       vp_assert(s->Basis::theBaseId.size() == dim1 && s->Basis::matrix.size() == dim1, 11);
       vp_assert(!s->Basis::factorized || s->Basis::matrixIsSetup, 12);
-#ifndef NO_BASEID_CHECK
       if(s->Basis::matrixIsSetup)
       {  // "matrixIsSetup: true iff the pointers in matrix are set up correctly": base ids list the basic variables of the new LP
          for(int k = 0; k < VMAX; ++k) if(k < dim1)
          {
             SPxId id = s->Basis::theBaseId[k];
-            vp_assert(id.isValid() && s->has(id), 13);
-            int st = id.isSPxRowId() ? ds.rowStatus(s->number(SPxRowId(id))) : ds.colStatus(s->number(SPxColId(id)));
+            int n = id.isSPxRowId() ? new_row(s, id) : new_col(s, id);
+            vp_assert(id.isValid() && n >= 0, 13);
+            if(n < 0) continue;
+            int st = id.isSPxRowId() ? ds.rowStatus(n) : ds.colStatus(n);
             vp_assert(s->isBasic((Desc::Status)st), 14);
             for(int l = 0; l < VMAX; ++l) if(l < k) vp_assert(!(s->Basis::theBaseId[l] == id), 15);
             vp_assert(s->Basis::matrix[k] == &s->vector(id), 16);
          }
       }
-#endif
    }
 }
 
@@ -203,9 +215,6 @@ template<int REP> static void remove_perm()
    bool rowgone[VNR], colgone[VNC];
    for(int i = 0; i < VNR; ++i) rowgone[i] = false;
    for(int j = 0; j < VNC; ++j) colgone[j] = false;
-#ifdef ONLY_MAKE
-   vp_cover(1); return;
-#endif
    int rows = vp_int_in(0, 1);
    int* perm = new int[VMAX];
    if(rows)
